@@ -60,7 +60,12 @@ class Q(BaseEvent):
     name: str = ''
 
 
-EVCLS = {c.__name__: c for c in (P, C, G, X, Y, Z, R, Q)}
+class T(BaseEvent[int]):
+    """an event with a DECLARED result type (handlers return ints)"""
+    name: str = ''
+
+
+EVCLS = {c.__name__: c for c in (P, C, G, X, Y, Z, R, Q, T)}
 
 
 class Custom(Exception):
@@ -82,6 +87,7 @@ class HBus(EventBus):
     """EventBus whose *public* dispatch is observed; forwarding via ``other.dispatch`` goes through it too"""
 
     world = None
+    label = None  # the scenario's name for this bus (differs from .name only where several buses are REQUESTED under one name and the library renames them)
 
     def dispatch(self, event):
         w = self.world
@@ -91,9 +97,9 @@ class HBus(EventBus):
         try:
             r = super().dispatch(event)
         except BaseException as ex:
-            w.rec('dispatch', WHO.get(), self.name, nm, 'raised:' + type(ex).__name__, VIA.get())
+            w.rec('dispatch', WHO.get(), self.label or self.name, nm, 'raised:' + type(ex).__name__, VIA.get())
             raise
-        w.rec('dispatch', WHO.get(), self.name, nm, 'ok' if r is event else 'other-object', VIA.get())
+        w.rec('dispatch', WHO.get(), self.label or self.name, nm, 'ok' if r is event else 'other-object', VIA.get())
         return r
 
 
@@ -131,7 +137,7 @@ class World:
     def state_of(self, e):
         sig = e.event_completed_signal
         return (e.event_status, bool(sig.is_set()) if sig is not None else None,
-                tuple((r.eventbus_name, r.handler_name.rsplit('.', 1)[-1], r.status, repr(r.result)[:24] if not isinstance(r.result, BaseEvent) else 'ev:' + self.name_of(r.result),
+                tuple((self.label_of(r.eventbus_name), r.handler_name.rsplit('.', 1)[-1], r.status, repr(r.result)[:24] if not isinstance(r.result, BaseEvent) else 'ev:' + self.name_of(r.result),
                        self.exc_label(r.error)) for r in e.event_results.values()))
 
     def exc_label(self, err):
@@ -172,6 +178,11 @@ class World:
                         self.log.append((self.seq, round(self.loop.now(), 6), 'hist', bn, h))
         finally:
             self._in_watch = False
+
+    def label_of(self, busname):
+        """scenario label of the bus with this (possibly library-generated) name; the raw name where no bus or several buses carry it"""
+        hit = [b.label for b in self.buses.values() if b.name == busname]
+        return hit[0] if len(hit) == 1 else busname
 
     def name_of(self, event):
         return self.by_id.get(event.event_id) or f'?{event.event_type}'
@@ -262,7 +273,7 @@ class World:
                 self.rec('mark', who, op[1])
             elif k == 'bus?':  # record what event.event_bus says right now, inside the handler
                 try:
-                    eb = cur.event_bus.name
+                    eb = self.label_of(cur.event_bus.name)
                 except BaseException as ex:  # noqa: BLE001
                     eb = 'raised:' + type(ex).__name__
                 self.rec('bus?', who, hctx, eb)
@@ -407,7 +418,7 @@ class World:
         def entered(e):
             who = f'{bus}.{hname}({w.name_of(e)})'
             try:
-                eb = e.event_bus.name
+                eb = w.label_of(e.event_bus.name)
             except BaseException as ex:
                 eb = 'raised:' + type(ex).__name__
             w.rec('enter', bus, hname, w.name_of(e), eb, who, w.events.get(w.name_of(e)) is e)
@@ -487,8 +498,9 @@ class World:
             kw = {}
             if cfg.get('wal'):
                 kw['wal_path'] = cfg['wal']
-            b = HBus(name=name, parallel_handlers=cfg.get('parallel', False), max_history_size=cfg.get('hist', 50), **kw)
+            b = HBus(name=cfg.get('req_name', name), parallel_handlers=cfg.get('parallel', False), max_history_size=cfg.get('hist', 50), **kw)
             b.world = self
+            b.label = name
             self.buses[name] = b
         # a second EventBus constructed with the name of an existing one (legitimate: the library warns and renames the newcomer); kept alive, never used
         self.twins = [HBus(name=n) for n in self.scn.get('dup_names', [])]
@@ -579,9 +591,9 @@ class World:
             sig = e.event_completed_signal
             pid = e.event_parent_id
             evs[nm] = dict(
-                status=e.event_status, sig=bool(sig.is_set()) if sig is not None else None, path=list(e.event_path),
+                status=e.event_status, sig=bool(sig.is_set()) if sig is not None else None, path=[self.label_of(n) for n in e.event_path],
                 parent=None if pid is None else self.by_id.get(pid, 'unknown:' + pid[-6:]),
-                results=[dict(bus=r.eventbus_name, h=r.handler_name.rsplit('.', 1)[-1], status=r.status,
+                results=[dict(bus=self.label_of(r.eventbus_name), h=r.handler_name.rsplit('.', 1)[-1], status=r.status,
                               value=repr(r.result)[:40] if not isinstance(r.result, BaseEvent) else 'ev:' + self.name_of(r.result),
                               err=self.exc_name(r.error), errtype=type(r.error).__name__ if r.error is not None else None,
                               started_v=seams.VDatetime.vtime_of(r.started_at), completed_v=seams.VDatetime.vtime_of(r.completed_at),
